@@ -204,3 +204,140 @@ func Gofmt(p *Prog) error {
 	}
 	return nil
 }
+
+// ---------------------------------------------------------------------------
+// C13: respelling of use-site type expressions into identical types
+
+type RespellInfo struct {
+	LocalAlias, ThirdPkgAlias, Paren, ImportRename int
+	Sites                                          map[int]bool // site ids whose spelling changed
+}
+
+// allRefs lists every type mention that may be respelled, with the file and
+// site id it belongs to and whether parentheses are syntactically allowed.
+type refSlot struct {
+	ref     *TypeRef
+	file    *File
+	site    int
+	parenOK bool
+	aliasOK bool
+}
+
+func (p *Prog) refSlots() []refSlot {
+	var out []refSlot
+	p.Walk(func(si SiteInfo) {
+		s := si.Site
+		if s.Ref == nil || s.Type == nil {
+			return
+		}
+		slot := refSlot{ref: s.Ref, file: si.Ctx.File, site: s.ID, aliasOK: true}
+		switch s.Kind {
+		case "param", "result", "field", "var", "var2", "varptr", "varblank", "varinit", "new", "conv":
+			slot.parenOK = true
+		case "recv", "embedded", "typedecl":
+			return // receivers and embedded fields keep their spelling
+		}
+		out = append(out, slot)
+	})
+	return out
+}
+
+// Respell rewrites a random subset of type mentions through aliases declared
+// in a new file of the using package or in a new third package, through added
+// parentheses, and renames imports of some files.
+func Respell(t *rapid.T, p *Prog) RespellInfo {
+	info := RespellInfo{Sites: map[int]bool{}}
+	slots := p.refSlots()
+	localAlias := map[*Pkg]map[*TypeDecl]*TypeDecl{}
+	thirdAlias := map[*TypeDecl]*TypeDecl{}
+	aliasFile := map[*Pkg]*File{}
+	thirdPkg := map[*Pkg]*Pkg{}
+	getLocal := func(user *Pkg, td *TypeDecl) *TypeDecl {
+		if localAlias[user] == nil {
+			localAlias[user] = map[*TypeDecl]*TypeDecl{}
+		}
+		if a := localAlias[user][td]; a != nil {
+			return a
+		}
+		f := aliasFile[user]
+		if f == nil {
+			f = &File{Name: "zalias.go", Kind: FileRegular, Pkg: user, Aliases: map[*Pkg]string{}}
+			aliasFile[user] = f
+			user.Files = append(user.Files, f)
+		}
+		a := &TypeDecl{ID: p.NewID(), Name: fmt.Sprintf("Al%s%d", td.Name, len(f.Decls)), Pkg: user, Kind: td.Kind, AliasOf: &TypeRef{Type: td}}
+		f.Decls = append(f.Decls, a)
+		localAlias[user][td] = a
+		return a
+	}
+	getThird := func(td *TypeDecl) *TypeDecl {
+		if a := thirdAlias[td]; a != nil {
+			return a
+		}
+		tp := thirdPkg[td.Pkg]
+		if tp == nil {
+			tp = &Pkg{Dir: "al" + strings.NewReplacer("/", "", "-", "", ".", "").Replace(td.Pkg.Dir), Name: "al" + td.Pkg.Name}
+			tp.Files = []*File{{Name: "f0.go", Kind: FileRegular, Pkg: tp, Aliases: map[*Pkg]string{}}}
+			thirdPkg[td.Pkg] = tp
+			// insert right after the declaring package (dependency order)
+			var np []*Pkg
+			for _, q := range p.Pkgs {
+				np = append(np, q)
+				if q == td.Pkg {
+					np = append(np, tp)
+				}
+			}
+			p.Pkgs = np
+		}
+		f := tp.Files[0]
+		a := &TypeDecl{ID: p.NewID(), Name: fmt.Sprintf("Al%s%d", td.Name, len(f.Decls)), Pkg: tp, Kind: td.Kind, AliasOf: &TypeRef{Type: td}}
+		f.Decls = append(f.Decls, a)
+		thirdAlias[td] = a
+		return a
+	}
+	for _, sl := range slots {
+		if sl.ref.Via != nil {
+			continue
+		}
+		user := sl.file.Pkg
+		if sl.file.Kind != FileRegular {
+			continue
+		}
+		switch rapid.IntRange(0, 9).Draw(t, "respell") {
+		case 0, 1:
+			sl.ref.Via = getLocal(user, sl.ref.Type)
+			info.LocalAlias++
+			info.Sites[sl.site] = true
+		case 2:
+			if sl.ref.Type.Pkg != user {
+				sl.ref.Via = getThird(sl.ref.Type)
+				// the using package must still import the declaring package directly
+				sl.file.BlankImports = append(sl.file.BlankImports, sl.ref.Type.Pkg)
+				info.ThirdPkgAlias++
+				info.Sites[sl.site] = true
+			}
+		case 3:
+			if sl.parenOK {
+				sl.ref.Paren = true
+				info.Paren++
+				info.Sites[sl.site] = true
+			}
+		}
+	}
+	// rename imports of some files
+	for _, pkg := range p.Pkgs {
+		for _, f := range pkg.Files {
+			for _, ip := range f.Imports {
+				if rapid.IntRange(0, 9).Draw(t, "renameImport") < 2 {
+					if f.Aliases[ip] == "" {
+						f.Aliases[ip] = "ri" + ip.Name
+					} else {
+						f.Aliases[ip] = ""
+					}
+					info.ImportRename++
+				}
+			}
+		}
+	}
+	return info
+}
